@@ -584,7 +584,20 @@ def r4_scratch_fully_written(ctx, cf):
             if not has_fact(facts, "==", flag):
                 continue        # skipped (or the flag is not tested on this path)
             n_paths += 1
-            missing = [k for k in lanes if (hco, k) not in o.env]
+            # the slot of the residue: three consecutive floats from hcoords[0] (first residue) / from the running pointer after one advance of 4 or,
+            # indexed, from hcoords[4 * residue] (residue of the loop) - identified by the offsets stored, not by how the pointer is spelled
+            from .. import symval as _SV
+            offs = []
+            for k_ in o.env:
+                if isinstance(k_, tuple) and len(k_) == 2 and k_[0] == hco:
+                    ov = Rat(Poly.const(k_[1])) if isinstance(k_[1], int) else _SV.OFFVALS.get(k_[1])
+                    if ov is not None:
+                        offs.append(ov)
+            bases = [Rat(Poly.const(lanes[0]))] + ([4 * var(rv)] if lanes[0] else [])
+            missing = list(lanes)
+            for b_ in bases:
+                if all(any(x_ == b_ + j_ for x_ in offs) for j_ in range(3)):
+                    missing = []
             if missing:
                 bad = bad or "on a path where %s is not skipped (conditions %s) components %s of its hydrogen position are not stored" % (which, [t for t, _p in o.cvals][:4], missing)
         if n_paths == 0:
